@@ -15,10 +15,11 @@ import traceback
 from . import VERIF_ROOT, REPO_ROOT, NATIVE_PY
 
 EXIT_OK, EXIT_VIOLATION, EXIT_UNDECIDED, EXIT_CRASH = 0, 1, 2, 3
+FAST_MS = 1500   # obligations discharged faster than this on the pinned tree count as 'fast proofs'
 
 
 def _worker(arg):
-    prop, check_id, tier = arg
+    prop, check_id, tier, probe = arg
     t0 = time.time()
     out = {'id': check_id, 'vcs': [], 'meta': {}, 'error': None, 'undecided': None}
     try:
@@ -52,8 +53,9 @@ def _worker(arg):
                 out['vcs'].append(rec)
                 continue
             r = solve.check_valid(vc.pc, vc.goal, all_backends=(tier == 'thorough'),
-                                  z3_timeout_ms=getattr(chk, 'z3_timeout_ms', None))
-            rec.update(verdict=r['verdict'], backend=r['backend'], ms=r['ms'], detail=r['detail'], all=r.get('all'))
+                                  z3_timeout_ms=getattr(chk, 'z3_timeout_ms', None), ematch_probe=probe)
+            rec.update(verdict=r['verdict'], backend=r['backend'], ms=r['ms'], detail=r['detail'], all=r.get('all'),
+                       ematch=r.get('ematch'))
             rec['goal_head'] = solve.head(vc.goal, 300)
             if r['verdict'] == 'refuted':
                 model = r['model']
@@ -148,7 +150,7 @@ def main(argv=None):
         traceback.print_exc()
         print(f'CRASH property={prop}: contracts failed to load', file=sys.stderr)
         return EXIT_CRASH
-    jobs = [(prop, c.id, a.tier) for c in checks]
+    jobs = [(prop, c.id, a.tier, a.record_baseline) for c in checks]
     results = []
     if jobs:
         with mp.get_context('fork').Pool(min(a.jobs, len(jobs))) as pool:
@@ -210,6 +212,25 @@ def report(prop, a, checks, results, native, seed, t0):
             for v in vcs:
                 if v['verdict'] == 'proved':
                     continue
+                if v['verdict'] == 'unknown' and v.get('ematch') == 'saturated' and baseline \
+                        and name in set(baseline.get('ematch_provable', [])):
+                    # proved by quantifier instantiation on the pinned tree; now instantiation saturates without a
+                    # contradiction: the obligation fails although the solver cannot construct a finite model
+                    v = dict(v, verdict='refuted', model=None, inputs=None,
+                             detail='instantiation saturated without contradiction (incomplete quantifiers); '
+                                    'the same obligation is recorded as provable by instantiation on the pinned tree')
+                    handle_refutation(prop, name, v, known, known_hits, violations, undecided, base_names, replays_dir)
+                    continue
+                base_ms = (baseline or {}).get('max_ms', {}).get(name)
+                all_unknown = v.get('all') and len(v['all']) >= 2 and all(x == 'unknown' for x in v['all'].values())
+                if v['verdict'] == 'unknown' and all_unknown and base_ms is not None and base_ms <= FAST_MS:
+                    # discharged in milliseconds on the pinned tree, now undischargeable by every back end within the
+                    # full budget (>= 10 s each): reported as a failed obligation without a model
+                    v = dict(v, verdict='refuted', model=None, inputs=None,
+                             detail=f'no back end ({", ".join(v["all"])}) can discharge this obligation any more within '
+                                    f'its full time budget; on the pinned tree it was discharged in {base_ms} ms')
+                    handle_refutation(prop, name, v, known, known_hits, violations, undecided, base_names, replays_dir)
+                    continue
                 if v['verdict'] in ('unknown', 'disagree'):
                     undecided.append(f"{name}: solver verdict {v['verdict']} ({v.get('detail')}, {v.get('all')})")
                     continue
@@ -244,7 +265,20 @@ def report(prop, a, checks, results, native, seed, t0):
     if a.record_baseline:
         os.makedirs(os.path.join(VERIF_ROOT, 'obligations'), exist_ok=True)
         with open(os.path.join(VERIF_ROOT, 'obligations', f'{prop}.json'), 'w') as f:
-            json.dump({'property': prop, 'proved': sorted(proved_names)}, f, indent=1)
+            em = set()
+            for res in results:
+                per = {}
+                for vc in res.get('vcs', []):
+                    if vc['kind'] != 'cover':
+                        per.setdefault(vc['name'], []).append(vc.get('ematch') == 'unsat')
+                em.update(n for n, flags in per.items() if all(flags))
+            max_ms = {}
+            for res in results:
+                for vc in res.get('vcs', []):
+                    if vc['kind'] != 'cover' and vc['name'] in proved_names:
+                        max_ms[vc['name']] = max(max_ms.get(vc['name'], 0), vc.get('ms', 0))
+            json.dump({'property': prop, 'proved': sorted(proved_names),
+                       'ematch_provable': sorted(em & proved_names), 'max_ms': max_ms}, f, indent=1)
         print(f'recorded baseline: {len(proved_names)} obligation names')
     elif base_names is not None and not a.only:
         missing = base_names - all_names
@@ -334,7 +368,8 @@ def handle_refutation(prop, name, v, known, known_hits, violations, undecided, b
     h = hashlib.sha256((name + json.dumps(inputs, sort_keys=True, default=str) + str(witness_key)).encode()).hexdigest()[:10]
     path = os.path.join(replays_dir, f'{prop}_{name.replace("/", "_")}_{h}.json')
     rec = {'property': prop, 'obligation': name, 'witness_key': witness_key, 'solver_verdict': v.get('verdict'),
-           'backend': v.get('backend'), 'solver_model': v.get('model'), 'goal': v.get('goal_head'),
+           'backend': v.get('backend'), 'solver_model': v.get('model'), 'solver_reason': v.get('detail'),
+           'goal': v.get('goal_head'),
            'inputs': inputs, 'replay_fn': replay_fn, 'native_result': native, 'info': v.get('info')}
     if native is not None and native.get('violates') is True:
         with open(path, 'w') as f:
